@@ -26,4 +26,16 @@ PROPS = {
                  "lists of 2^32 or more leaves (128 GiB) are outside the model"],
         assumes=["leaf lists shorter than 2^32"],
     ),
+    "C14": dict(
+        n_quick=60, n_thorough=1200, audit=6, audit_maxlen=9000,
+        rule="every optional and keyed field of Global/Input/Output present only in other / only in self / in both (exhaustive over the 73 fields), "
+             "every xpub key-source pair class of the quantifier, gate cases per transaction-identifying field, and n families of 2..4 descendants of a "
+             "common ancestor merged in every permutation and grouping; distinct = distinct case text; non-trivial = at least one optional field beyond the mandatory ones",
+        trusted=["field values and keys are opaque canonical byte strings (the crate's pset Serialize of each field); BTreeMaps are strictly key-sorted association "
+                 "lists under byte-lexicographic key order (the model's canonical order, not the Rust Ord of the key type; iteration order only matters for which of "
+                 "several failing xpub entries is reported first)",
+                 "harness/src/psetl.rs: listing <-> real PartiallySignedTransaction through the crate's Serialize/Deserialize of every field (exhaustive struct patterns)",
+                 "the unique id is an abstract function in the theorems; in runs it is SHA-256 of the model's id pre-image (C08 model), compared with the crate's only through equality patterns"],
+        assumes=["uncompressed public keys and multi-leaf tap trees are not generated (C07's F9)"],
+    ),
 }
